@@ -210,6 +210,13 @@ def oracle_real(spec: Dict[str, Any], res: Dict[str, Any]) -> List[str]:
 def cross_check(n: int, seed: int, parallel: int = 4) -> Dict[str, Any]:
     rng = random.Random(seed)
     specs = [gen_real_spec(rng) for _ in range(n)]
+    if specs:
+        # one run per batch goes through --use-process-pool with sync functions among the first messages (they are
+        # pickled into the pool's processes)
+        specs[0]["use_process_pool"] = True
+        for m_ in specs[0]["msgs"][:4:2]:
+            if m_["dur"] != LONG:
+                m_["task"] = "t_sync"
     out: Dict[str, Any] = {"real_worker_runs": 0, "real_worker_inconclusive": 0, "real_worker_violations": 0,
                            "real_worker_messages_taken": 0, "real_worker_stop_requests_seen": 0,
                            "real_worker_runs_with_message_taken_after_request": 0, "real_worker_process_pool_runs": 0,
